@@ -158,6 +158,7 @@ def make_elem(space, vals, layout, rng):
     arr = np.array(vals, dtype=space.dtype).reshape(shape)   # always a private copy
     if layout == 'mixed':
         layout = rng.choice(['C', 'F'])
+    layout = {'S': 'strided'}.get(layout, layout)
     if layout == 'C':
         data = np.ascontiguousarray(arr)
     elif layout == 'F':
@@ -211,6 +212,20 @@ def lincomb_cases(ctx, small, medium):
     large_keep += [(medium, 'float64', 'strided', al, 'few') for al in ALIASES]
     large_keep += [(medium + 1, 'complex64', 'strided', 'x1x2', 'few')]
     large_keep += large_plans[:(3 if quick else 60)]
+    # the full cross of per-buffer layouts (C / F / strided view) in the large regime: whether
+    # BLAS is applicable depends on all three arrays, whether its result reaches `out` on the
+    # layout of `out` alone - a predicate that looks at too few arrays loses writes only for
+    # particular combinations (e.g. x1 F-contiguous, out strided)
+    cross = [('none', ''.join(p)) for p in itertools.product('CFS', repeat=3)]
+    rest = []
+    for al in ('x1x2', 'outx1', 'outx2', 'all'):
+        ids = ALIASES[al]
+        distinct = sorted(set(ids))
+        for p in itertools.product('CFS', repeat=len(distinct)):
+            rest.append((al, ''.join(p[distinct.index(ids[k])] for k in range(3))))
+    rng.shuffle(rest)
+    cross += rest[:(10 if quick else len(rest))]
+    large_keep += [(medium, 'float64', 'pat:' + pat, al, 'cross') for al, pat in cross]
     if quick:
         # keep every (regime, dtype, layout, alias) but sample sizes inside the regime
         keep = {}
@@ -225,7 +240,7 @@ def lincomb_cases(ctx, small, medium):
     plans = plans + sorted(set(large_keep))
     for size, dt, layout, alias, breadth in plans:
         dtype = np.dtype(dt)
-        if layout == 'mixed' and size % 2 == 0 and size >= 4:
+        if (layout == 'mixed' or layout.startswith('pat:')) and size % 2 == 0 and size >= 4:
             shape = (size // 2, 2)
         elif size % 6 == 0 and size >= 12 and layout != 'C':
             shape = (size // 6, 6)
@@ -243,6 +258,8 @@ def lincomb_cases(ctx, small, medium):
         else:
             classes = SC_REAL
         combos = list(itertools.product(classes, classes))
+        if breadth == 'cross':
+            combos = [('gen', 'gen')] if ('gen', 'gen') in combos else combos[:1]
         if breadth == 'few' or (quick and size > 8):
             rng.shuffle(combos)
             combos = combos[:(1 if quick else 2) if size >= medium - 1 else (3 if quick else 6)]
@@ -252,6 +269,8 @@ def lincomb_cases(ctx, small, medium):
             if quick or breadth == 'few':
                 rng.shuffle(nc)
                 nc = nc[:1]
+            if breadth == 'cross':
+                nc = []
             todo += nc
         for ca, cb, a, b in todo:
             yield dict(kind='lincomb', size=size, shape=shape, dtype=dt, layout=layout,
@@ -323,9 +342,14 @@ def run_lincomb_case(c, small, medium):
     elems = {}
     pattern = r.choice([('C', 'F', 'F'), ('F', 'C', 'C'), ('C', 'C', 'F'), ('F', 'F', 'C'),
                         ('C', 'F', 'C')])
+    if c['layout'].startswith('pat:'):
+        # per-ARGUMENT layouts (x1, x2, out); aliased arguments share the buffer's layout
+        pat = c['layout'][4:]
+        pattern = {ids[k]: pat[k] for k in range(3)}
     for bid in sorted(set(ids)):
         elems[bid] = make_elem(space, vals[bid],
-                               pattern[bid] if c['layout'] == 'mixed' else c['layout'], r)
+                               pattern[bid] if (c['layout'] == 'mixed' or
+                                                c['layout'].startswith('pat:')) else c['layout'], r)
     x1, x2, out = elems[ids[0]], elems[ids[1]], elems[ids[2]]
     if ids[2] not in ids[:2] and not np.issubdtype(dtype, np.integer):
         out.data[...] = np.nan  # previous contents of a non-aliased output must not matter
@@ -1089,7 +1113,11 @@ def regenerate(ctx):
                        extract_front)]:
         try:
             changed = mod.regenerate()
-            out.append((name, True, 'regenerated' if changed else 'unchanged'))
+            note = '; '.join(getattr(mod, 'BLAS_NOTE', []))
+            if note:
+                ctx.extra['lincomb_translator'] = note
+            out.append((name, True, ('regenerated' if changed else 'unchanged') +
+                        (' [' + note + ']' if note else '')))
         except Exception as e:  # noqa: grammar no longer matches the source
             out.append((name, False, '{}: {}'.format(type(e).__name__, e)))
     return out
